@@ -235,7 +235,8 @@ class World:
         self.trace = [] if keep_log else None
         self.fs = SimFS(self)
         self.keep = []  # objects that must stay referenced for the whole run
-        self.sim_cwd = None  # when set, relative paths resolve into this SimFS directory
+        self.sim_cwd = "/simfs/cwd"  # relative paths resolve into this SimFS directory, never into the real cwd
+        self.fs.dirs.add("/simfs/cwd")
         self._saved = None
         self._gc_was = None
 
